@@ -17,14 +17,19 @@ type meterRun struct {
 	PeriodUS int    `json:"period_us"`
 	Seed     int64  `json:"seed"`
 	MaxDelay int    `json:"max_delay_us"`
+	WriteUS  int    `json:"write_us"` // the writer takes this long for every non-final frame (a slow terminal)
 }
 
 type recWriter struct {
 	mu     sync.Mutex
 	writes []string
+	slow   time.Duration
 }
 
 func (w *recWriter) Write(p []byte) (int, error) {
+	if w.slow > 0 && len(p) > 0 && p[len(p)-1] == '\r' {
+		time.Sleep(w.slow)
+	}
 	w.mu.Lock()
 	w.writes = append(w.writes, string(p))
 	w.mu.Unlock()
@@ -60,7 +65,7 @@ func doMeter(body json.RawMessage) interface{} {
 			r := runs[i]
 			out[i].ID = r.ID
 			rng := rand.New(rand.NewSource(r.Seed))
-			w := &recWriter{}
+			w := &recWriter{slow: time.Duration(r.WriteUS) * time.Microsecond}
 			period := time.Duration(r.PeriodUS) * time.Microsecond
 			p := meter.NewProgressMeter(w, period)
 			pause := func() {
@@ -85,7 +90,7 @@ func doMeter(body json.RawMessage) interface{} {
 				p.Done()
 			}
 			// give stale tickers time to show themselves
-			time.Sleep(6*period + 200*time.Microsecond)
+			time.Sleep(6*period + 200*time.Microsecond + 2*w.slow)
 			w.mu.Lock()
 			out[i].Writes = append([]string(nil), w.writes...)
 			w.mu.Unlock()
